@@ -51,7 +51,7 @@ def rules():
 def seeds(quick):
     R = yv.yvbuild.REPO
     S = []
-    for b in ("PE32_FILE", "ELF32_FILE", "ELF64_FILE", "ELF32_NOSECTIONS", "ELF32_SHAREDOBJ", "MACHO_X86_FILE", "MACHO_PPC_FILE", "MACHO_X86_OBJECT_FILE", "MACHO_X86_64_DYLIB_FILE", "DEX_FILE", "ISSUE_1006"):
+    for b in ("PE32_FILE", "ELF32_FILE", "ELF64_FILE", "ELF32_NOSECTIONS", "ELF32_SHAREDOBJ", "ELF32_MIPS_FILE", "ELF_x64_FILE", "MACHO_X86_FILE", "MACHO_PPC_FILE", "MACHO_X86_OBJECT_FILE", "MACHO_X86_64_DYLIB_FILE", "DEX_FILE", "ISSUE_1006"):
         S.append((b, yv.blob(b)))
     for f in ("tiny-macho", "bad_dotnet_pe", "mtxex.dll", "weird_rich", "0ca09bde7602769120fadc4f7a4147347a7a97271370583586c9e587fd396171", "6c2abf4b80a87e63eee2996e5cea8f004d49ec0c1806080fa72e960529cba14c",
               "e3d45a2865818756068757d7e319258fef40dad54532ee4355b86bc129f27345", "c6f9709feccf42f2d9e22057182fe185f177fb9daaa2649b4669a24f2ee7e3ba_0h_410h"):
@@ -156,7 +156,7 @@ def sig_of(r):
 
 
 def main():
-    ck = yv.Check("C06", "exploration")
+    ck = yv.Check("C06", "exploration", deadlines=(540, 3300))
     quick = ck.tier == "quick"
     S = [("%02d:%s" % (i, nm), d) for i, (nm, d) in enumerate(seeds(quick))]
     text, nrules = rules()
